@@ -165,6 +165,20 @@ class CoopLock(CoopRLock):
         return self.owner is None
 
 
+def coop_locks(obj, run):
+    """Replace every threading lock held in an attribute of *obj* (whatever its
+    name) by its cooperative counterpart.  Returns the number replaced."""
+    import threading
+    kinds = {type(threading.Lock()): CoopLock, type(threading.RLock()): CoopRLock}
+    n = 0
+    for name, val in list(vars(obj).items()):
+        cls = kinds.get(type(val))
+        if cls is not None:
+            setattr(obj, name, cls(run))
+            n += 1
+    return n
+
+
 def explore(make_bodies, trace_files, bound=2, limit=None, rnd=None, on_run=None, max_steps=4000):
     """Enumerate schedules with at most *bound* pre-emptions.  make_bodies(run)
     -> list of callables (fresh objects per execution).  on_run(run, plan) is
